@@ -198,7 +198,7 @@ Definition op_pre (fl : flags) (g : graph) (o : op) : bool :=
   | OAddPM _ _ to => conn_pre fl g [to]
   | OAddFacility _ _ _ | OAddSwitch _ _ _ => true
   | OConnect s i => fl_connect_names fl && fl_connect_undo fl && negb (typ_is g i sServicePort)
-  | ODisconnect s i => subs_under_dedicated g && negb (typ_is g i sServicePort)
+  | ODisconnect s i => subs_under_dedicated g && (fl_disc_peering fl || negb (typ_is g i sServicePort))
   | OPeer a b => fl_peer_checks fl || (negb (str_eqb a b) && peer_link_free g a b)
   | OUnpeer a b => subs_under_dedicated g
   | ORemoveSub i name => subs_under_dedicated g
@@ -206,9 +206,9 @@ Definition op_pre (fl : flags) (g : graph) (o : op) : bool :=
   end.
 
 (* the library as it is at /repo HEAD: none of the proposed repairs C07-3..6 *)
-Definition flags_off : flags := mkFlags false false false false false false false false.
+Definition flags_off : flags := mkFlags false false false false false false false false false false.
 (* ... with all of them *)
-Definition flags_on : flags := mkFlags true true true true true true true true.
+Definition flags_on : flags := mkFlags true true true true true true true true true true.
 
 Definition hstep := (op * list str * list str)%type.   (* call, ids drawn from uuid4, iteration-order hint *)
 Fixpoint run_hist (sub : bool) (fl : flags) (g : graph) (h : list hstep) : graph :=
